@@ -9,7 +9,7 @@ import geom_common as GC
 from common import prove, driver
 
 P = "Matid.Props.C16."
-THEOREMS = [P + t for t in ("extended_entries", "extended_contains_all", "multipliers_once_originals_first", "copies_suffice", "query_exact", "match_spec")]
+THEOREMS = [P + t for t in ("extended_entries", "extended_contains_all", "multipliers_once_originals_first", "copies_suffice", "query_exact", "match_spec", "match_exact")]
 TRUSTED = ["Lean 4 kernel", "axioms: propext, Classical.choice, Quot.sound at most (audited per run)",
            "hand-written model MatidModel/Geom.lean of geometry.cpp / celllist.cpp / get_matches, tied by the correspondence (C++ rebuilt from /repo through /verif/shim)",
            "exact arithmetic on the rational inputs: rounding inside ceil(extension/h), sqrt and bin indices is not modelled"]
@@ -28,7 +28,7 @@ def run(ctx):
     import matid.geometry as G
     from ase import Atoms
     broken = []
-    ok, info = prove(ctx, "MatidProps.C16", THEOREMS)
+    ok, info = prove(ctx, "MatidProps.C16Exact", THEOREMS)
     if not ok:
         broken.append(("proof", info))
     rng = np.random.default_rng(ctx.seed + 16)
